@@ -205,6 +205,8 @@ impl TypePathType {
                     "Range" => parse_quote!(::core::ops::Range),
                     "RangeInclusive" => parse_quote!(::core::ops::RangeInclusive),
                     "Duration" => parse_quote!(::core::time::Duration),
+                    // scale-info registers every `PhantomData<T>` as `PhantomData<()>`
+                    "PhantomData" => parse_quote!(::core::marker::PhantomData<()>),
                     "NonZeroI8" => parse_quote!(::core::num::NonZeroI8),
                     "NonZeroU8" => parse_quote!(::core::num::NonZeroU8),
                     "NonZeroI16" => parse_quote!(::core::num::NonZeroI16),
